@@ -140,7 +140,10 @@ impl C11 {
         let mut b = self.build(prog, cfg)?;
         STOP_AT.with(|c| c.set(stop_at));
         STOPPED.with(|c| c.set(false));
-        let code_end = b.verif_code_end_addr();
+        // reference values are the harness's own, never read back from the machine under test:
+        // the code ends where the bytes handed to the constructor end; the stack is empty when RSP is where init_stack left it
+        let code_end = proggen::CODE_AT + prog.code.len() as u64;
+        let initial_rsp = snapshot(&b).gpr[4];
         let mut rb: Call<()> = Call::Ok(());
         let mut steps = 0u64;
         loop {
@@ -192,7 +195,7 @@ impl C11 {
                     }
                     // finished exactly when one of the three conditions holds
                     let stopped_now = STOPPED.with(|c| c.get()) && !stopped_before;
-                    let top_ret = ins.mnemonic() == Mnemonic::Ret && before.gpr[4].wrapping_add(8) == before.stack_top;
+                    let top_ret = ins.mnemonic() == Mnemonic::Ret && cfg.with_stack && before.gpr[4] == initial_rsp;
                     let at_end = after.rip == code_end;
                     let expect = stopped_now || top_ret || at_end;
                     if after.finished != expect {
